@@ -653,7 +653,7 @@ Proof.
     + destruct a, b; exact I.
     + destruct a as [|x a], b as [|y b]; try exact I; try contradiction.
       destruct H as [H1 H2]. split; [|apply IH; exact H2].
-      intro E. apply andb_true_iff in E as [E _]. apply H1; exact E.
+      intro E. apply andb_true_iff in E as [E _]. apply andb_true_iff in E as [E _]. apply H1; exact E.
   - f_equal. apply proj_agree. unfold pk_flags, ver_flags in *.
     revert vals vals' H. induction (k_cols cc) as [|c cols IH]; intros a b H; simpl in *.
     + destruct a, b; exact I.
